@@ -1,4 +1,4 @@
 From WD Require Import Base Entry.
 Require Extraction.
 Require Import ExtrOcamlBasic.
-Extraction "wdmodel.ml" run_entry z_to_dec z_of_dec.
+Extraction "wdmodel.ml" run_entry db_or_empty z_to_dec z_of_dec.
